@@ -168,7 +168,7 @@ def finish(rng, kind, lines):
     sc = ShellScenario(kind, lines, chunks, pool=pool, cpu=3, handler=handler, end=end, fail_send=fail_send,
                        start_managed=rng.random() < 0.35, app_close=rng.choice([0] * 8 + [1, 2]),
                        user=rng.choice([None, None, '', 'us er', 'u|1']), password=rng.choice([None, None, '', 'p w']),
-                       init_outcome=rng.choice(['ret'] * 6 + ['provider', 'other']))
+                       init_outcome=rng.choice(['ret'] * 6 + ['provider', 'other', 'type', 'attr']))
     # an adapter call that blocks until a later request has been answered and written (needs a free worker)
     if kind == 'meta' and sc.nworkers() >= 2 and end == 'block' and fail_send is None and not sc.app_close and rng.random() < 0.3:
         tmp = ShellScenario(kind, lines, chunks)
@@ -250,7 +250,7 @@ def work(arg):
         sc = gen(rng)
         s2 = rng.getrandbits(32)
         ch = dsched.PCTChooser(random.Random(s2), depth=rng.choice([1, 3, 6])) if i % 2 else dsched.RandomChooser(random.Random(s2))
-        if i % 40 == 39:
+        if i % 10 == 9:
             # line-granular preemption, oracle only (DESIGN.md section 4)
             r = shellrun.run(sc, dsched.RandomChooser(random.Random(s2)), fine=True, fine_seed=s2)
             viol = []
@@ -329,7 +329,7 @@ def explore(ctx, res, pid):
                 'bad reason) last; chunking one / per-line / random; pool None, -3, 0, 1, 2, 3 (cpu 3); handler absent / returning each boolean pair; read EOF / error at each chunk '
                 'position, k-th write failing; Server.start on a scheduled thread with requests already readable; application close() once or twice; an adapter call blocked '
                 'until a later request was answered; injected I/O errors of six classes, a failing write leaving a fragment; PCT and uniform random schedules; every step replayed through Model/Shell.v; '
-                'the class of every line compared with Model/Classify.v; one run in forty with line-granular preemption (oracle only); corpus of earlier minimised failures first; '
+                'the class of every line compared with Model/Classify.v; one run in ten with line-granular preemption (oracle only); corpus of earlier minimised failures first; '
                 'non-trivial = distinct (scenario, schedule)')
     shard = max(25, n // (nproc * 2))
     jobs = []
